@@ -17,101 +17,178 @@ from __future__ import annotations
 
 import ast
 
-from ..engine.cfg import CFG
+from typing import Any
+
+from ..engine.normalize import inline_helpers, positional
 from ..engine.report import AnalysisError, Run
-from ..engine.resolver import Program, body_walk
+from ..engine.resolver import FuncInfo, Program, body_walk
+from ..engine.sympath import Path, sym_block, sym_paths
 from ..engine.terms import Poly, TermEval
-from ..engine.util import canon, canon_total, find_calls, method_call, node_writes, nodes_with_call, u
+from ..engine.util import find_calls, method_call, u
 
 MOD = "timeseries._resampling"
 HELPER = f"{MOD}:_ResamplingHelper"
 
 
-def check_edge(run: Run, prog: Program) -> None:
+BUF = "self._buffer"
+CONF = "self._config"
+PROPS = "self._source_properties"
+RP = f"{CONF}.resampling_period"
+SP = f"{PROPS}.sampling_period"
+AGE = f"{CONF}.max_data_age_in_periods"
+START = f"{PROPS}.sampling_start"
+RECV = f"{PROPS}.received_samples"
+
+
+def _paths(prog: Program, fn: FuncInfo) -> list[Path]:
+    """Symbolic paths of `fn` with simple private helpers spliced in (locals substituted away)."""
+    return sym_paths(inline_helpers(prog, fn))
+
+
+def _ext(prog: Program, mod: Any, call: ast.AST) -> str:
+    if not isinstance(call, ast.Call):
+        return ""
+    name = prog.external_name(mod, u(call.func))
+    return "bisect.bisect_right" if name == "bisect.bisect" else name  # stdlib fact: bisect is bisect_right
+
+
+def _ordered(p: Path, big: str, small: str) -> bool:
+    """The path conditions entail big >= small (totally ordered operands)."""
+    return (p.outcome(("<", big, small)) is False or p.outcome(("<=", small, big)) is True
+            or p.outcome(("==", frozenset({big, small}))) is True)
+
+
+def _nonempty(p: Path, rel: str) -> bool | None:
+    """Outcome of the emptiness test of the relevant-sample container on this path (None: untested)."""
+    n = f"len({rel})"
+    tests = [(("truthy", rel), True), (("truthy", n), True), (("<", "0", n), True), (("<=", "1", n), True),
+             (("==", frozenset({n, "0"})), False), (("<=", n, "0"), False), (("<", n, "1"), False)]
+    for key, pol in tests:
+        o = p.outcome(key)
+        if o is not None:
+            return o == pol
+    return None
+
+
+def check_edge(run: Run, prog: Program) -> None:  # noqa: C901
     fn = prog.func(f"{HELPER}.resample")
     run.analysed(fn.qual)
     mod = fn.module
     T = fn.params[1]
-    defs = {u(s.targets[0]): s.value for s in body_walk(fn.node)
-            if isinstance(s, ast.Assign) and isinstance(s.targets[0], ast.Name)}
-    rel = [k for k, v in defs.items() if isinstance(v, ast.Call) and u(v.func) == "list" and v.args
-           and isinstance(v.args[0], ast.Call) and u(v.args[0].func).endswith("islice")]
-    if len(rel) != 1:
-        raise AnalysisError(f"{fn.qual}: relevant-sample slice not found")
-    sl = defs[rel[0]].args[0]  # type: ignore[union-attr]
-    ok = len(sl.args) == 3 and u(sl.args[0]) == "self._buffer"
-    run.check(ok, "C08.EDGE", fn.qual, sl, "the relevant samples are not a contiguous slice of the buffer",
-              node=sl, file=fn.file)
-    if not ok:
-        return
-    lo_name, hi_name = u(sl.args[1]), u(sl.args[2])
-    REQUIRED = {"lower": ("bisect.bisect_right", "exclusive"), "upper": ("bisect.bisect_right", "inclusive")}
-    for edge, name in (("lower", lo_name), ("upper", hi_name)):
-        call = defs.get(name)
-        ok = isinstance(call, ast.Call) and isinstance(call.func, (ast.Name, ast.Attribute))
-        resolved = ""
-        if ok:
-            resolved = prog.external_name(mod, u(call.func))  # type: ignore[union-attr]
-            if resolved == "bisect.bisect":
-                resolved = "bisect.bisect_right"  # stdlib fact: bisect.bisect is bisect_right
-            kws = {k.arg: k.value for k in call.keywords}  # type: ignore[union-attr]
-            key = kws.get("key")
-            key_ok = isinstance(key, ast.Lambda) and u(key.body) == f"{key.args.args[0].arg}.timestamp"
-            arr_ok = u(call.args[0]) == "self._buffer"  # type: ignore[union-attr]
-            ok = resolved == REQUIRED[edge][0] and key_ok and arr_ok and not kws.get("lo") and not kws.get("hi")
-        what = ("samples stamped exactly T - age would be included" if edge == "lower"
-                else "samples stamped exactly T would be excluded")
-        run.check(ok, "C08.EDGE", fn.qual, f"{name} = {u(call) if call is not None else '?'}",
-                  f"the {edge} window edge does not use bisect_right keyed by the sample timestamp over "
-                  f"the buffer (resolved: {resolved or 'n/a'}): {what}, or a different ordering key is used",
-                  node=call if call is not None else fn.node, file=fn.file,
-                  instance=f"{fn.qual}: {edge} edge uses {REQUIRED[edge][0]} ({REQUIRED[edge][1]})")
-    # needles
-    hi_call, lo_call = defs.get(hi_name), defs.get(lo_name)
-    ok = isinstance(hi_call, ast.Call) and len(hi_call.args) >= 2 and u(hi_call.args[1]) == T
-    run.check(ok, "C08.EDGE", fn.qual, "upper edge at the tick timestamp",
-              "the upper edge is not the tick timestamp: samples stamped later than T could be used",
-              node=fn.node, file=fn.file)
-    mrt = u(lo_call.args[1]) if isinstance(lo_call, ast.Call) and len(lo_call.args) >= 2 else None
-    # C08.AGE
+    paths = _paths(prog, fn)
+    if not paths:
+        raise AnalysisError(f"{fn.qual}: no path found")
     te = TermEval()
-    age_def = defs.get(mrt or "")
-    ok = age_def is not None
-    if ok:
-        p = te.ev(age_def)
-        per_name = None
-        for cand, v in defs.items():
-            if isinstance(v, ast.IfExp) and "sampling_period" in u(v):
-                per_name = cand
-        want = Poly.atom(T) - Poly.atom(per_name or "?") * Poly.atom("conf.max_data_age_in_periods")
-        ok = per_name is not None and p == want
-        if ok:
-            v = defs[per_name]
-            ok = (canon(v.test) == ("isnot", frozenset({"props.sampling_period", "None"}))  # type: ignore[union-attr]
-                  and isinstance(v.body, ast.Call) and u(v.body.func) == "max"  # type: ignore[union-attr]
-                  and sorted(u(a) for a in v.body.args) == ["conf.resampling_period", "props.sampling_period"]  # type: ignore[union-attr]
-                  and u(v.orelse) == "conf.resampling_period")  # type: ignore[union-attr]
-        aliases = {k: u(v) for k, v in defs.items() if k in ("conf", "props")}
-        ok = ok and aliases == {"conf": "self._config", "props": "self._source_properties"}
-    run.check(ok, "C08.AGE", fn.qual, f"{mrt} = {T} - max(resampling period, input period) * max_data_age",
-              "the oldest relevant timestamp is not T - max(resampling period, current input period) * "
-              "max_data_age_in_periods (with the resampling period while the input period is unknown)",
-              node=fn.node, file=fn.file)
-    # C08.NONE
-    vals = [v for k, v in defs.items() if isinstance(v, ast.IfExp) and "resampling_function" in u(v)]
-    ok = len(vals) == 1
-    if ok:
-        v = vals[0]
-        ok = canon(v.test) == ("truthy", rel[0]) and isinstance(v.body, ast.Call) \
-            and u(v.body.func) == "conf.resampling_function" and u(v.body.args[0]) == rel[0] \
-            and isinstance(v.orelse, ast.Constant) and v.orelse.value is None
-    run.check(ok, "C08.NONE", fn.qual, "value = f(relevant) if relevant else None",
-              "the resampling function is not called exactly when there are relevant samples (with "
-              "those samples)", node=fn.node, file=fn.file)
-    rets = [n for n in body_walk(fn.node) if isinstance(n, ast.Return)]
-    ok = len(rets) == 1 and u(rets[0].value).replace(" ", "") == f"Sample({T},NoneifvalueisNoneelseQuantity(value))"
-    run.check(ok, "C08.NONE", fn.qual, rets[0] if rets else "return",
-              "the emitted value is not None exactly when nothing was computed", node=fn.node, file=fn.file)
+    seen_rel = False
+    for p in paths:
+        where = dict(node=fn.node, file=fn.file, path=p.describe())
+        ret = p.ret
+        if p.exit != "return" or not (isinstance(ret, ast.Call) and u(ret.func) == "Sample"):
+            run.violation("C08.NONE", fn.qual, f"{p.exit} {u(ret)[:80]}",
+                          "a tick does not produce a Sample on this path", **where)
+            continue
+        rargs = positional(ret, ["timestamp", "value"])
+        run.check(u(rargs.get("timestamp")) == T and "value" in rargs, "C08.NONE", fn.qual,
+                  "the emitted sample carries the tick timestamp",
+                  "the emitted sample is not stamped with the tick timestamp", **where)
+        val = rargs.get("value")
+        # ---- the relevant-sample slice
+        slices = [e for e in p.calls() if _ext(prog, mod, e.node) == "itertools.islice"]
+        if len(slices) != 1:
+            run.violation("C08.EDGE", fn.qual, "relevant samples = islice(buffer, lower, upper)",
+                          f"the relevant samples are not one contiguous slice of the buffer ({len(slices)} "
+                          "islice calls on this path)", **where)
+            continue
+        sl = slices[0].node
+        assert isinstance(sl, ast.Call)
+        ok = len(sl.args) == 3 and not sl.keywords and u(sl.args[0]) == BUF
+        run.check(ok, "C08.EDGE", fn.qual, "islice(self._buffer, lower, upper)",
+                  "the relevant samples are not a contiguous slice of the buffer in buffer order", **where)
+        if not ok:
+            continue
+        seen_rel = True
+        rels = {f"list({u(sl)})", f"tuple({u(sl)})"}
+        edges = {}
+        for edge, arg in (("lower", sl.args[1]), ("upper", sl.args[2])):
+            resolved = _ext(prog, mod, arg)
+            ok = resolved == "bisect.bisect_right"
+            needle = None
+            if ok:
+                assert isinstance(arg, ast.Call)
+                a = positional(arg, ["a", "x", "lo", "hi"])
+                key = a.get("key")
+                key_ok = isinstance(key, ast.Lambda) and len(key.args.args) == 1 \
+                    and u(key.body) == f"{key.args.args[0].arg}.timestamp"
+                ok = key_ok and u(a.get("a")) == BUF and "lo" not in a and "hi" not in a and "x" in a
+                needle = a.get("x")
+            what = ("samples stamped exactly T - age would be included" if edge == "lower"
+                    else "samples stamped exactly T would be excluded")
+            run.check(ok, "C08.EDGE", fn.qual, f"{edge} index = {u(arg)[:120]}",
+                      f"the {edge} window edge does not use bisect_right keyed by the sample timestamp over "
+                      f"the buffer (resolved: {resolved or 'n/a'}): {what}, or a different ordering key is used",
+                      instance=f"{fn.qual}: {edge} edge uses bisect.bisect_right keyed by timestamp", **where)
+            edges[edge] = needle if ok else None
+        # all three buffer reads see the same buffer object
+        eps = {e.epoch for e in p.calls() if u(e.node) in (u(sl), u(sl.args[1]), u(sl.args[2]))}
+        run.check(len(eps) == 1, "C08.EDGE", fn.qual, "indices and slice taken from the same buffer state",
+                  "the buffer can be replaced/resized between computing the window indices and slicing",
+                  **where)
+        if edges.get("upper") is not None:
+            run.check(u(edges["upper"]) == T, "C08.EDGE", fn.qual, "upper edge at the tick timestamp",
+                      "the upper edge is not the tick timestamp: samples stamped later than T could be used",
+                      **where)
+        # ---- C08.AGE
+        if edges.get("lower") is not None:
+            back = Poly.atom(T) - te.ev(edges["lower"])
+            cands = {"rp": Poly.atom(RP), "sp": Poly.atom(SP),
+                     "max": te.ev(ast.parse(f"max({RP}, {SP})", mode="eval").body)}
+            which = next((k for k, c in cands.items() if back == c * Poly.atom(AGE)), None)
+            unknown = p.outcome(("is", frozenset({SP, "None"})))
+            if which == "max":
+                ok = unknown is False
+            elif which == "rp":
+                ok = unknown is True or (unknown is False and _ordered(p, RP, SP))
+            elif which == "sp":
+                ok = unknown is False and _ordered(p, SP, RP)
+            else:
+                ok = False
+            run.check(ok, "C08.AGE", fn.qual, f"lower needle = {T} - max(resampling period, input period) * max_data_age",
+                      "the oldest relevant timestamp is not T - max(resampling period, current input period) * "
+                      f"max_data_age_in_periods (with the resampling period while the input period is unknown); "
+                      f"found {u(edges['lower'])[:140]}", **where)
+        # ---- C08.NONE
+        fcalls = p.calls(lambda c: isinstance(c.func, ast.Attribute) and u(c.func) == f"{CONF}.resampling_function")
+        ne = None
+        for r in rels:
+            ne = _nonempty(p, r) if ne is None else ne
+        if ne is None:
+            run.violation("C08.NONE", fn.qual, "value = f(relevant) if relevant else None",
+                          "the emptiness of the relevant samples is not decided on this path: the resampling "
+                          "function is not called exactly when there are relevant samples", **where)
+            continue
+        if ne:
+            ok = len(fcalls) == 1
+            if ok:
+                fc = fcalls[0].node
+                assert isinstance(fc, ast.Call)
+                fa = [u(a) for a in fc.args]
+                ok = not fc.keywords and len(fa) == 3 and fa[0] in rels and fa[1:] == [CONF, PROPS]
+                isnone = p.outcome(("is", frozenset({u(fc), "None"})))
+                if isinstance(val, ast.Constant) and val.value is None:
+                    ok = ok and isnone is True
+                else:
+                    ok = ok and isinstance(val, ast.Call) and u(val.func) == "Quantity" \
+                        and [u(a) for a in val.args] == [u(fc)] and not val.keywords and isnone is not True
+            run.check(ok, "C08.NONE", fn.qual, "relevant samples -> Quantity(resampling_function(relevant, conf, props))",
+                      "with relevant samples the emitted value is not the resampling function applied to "
+                      "exactly those samples", **where)
+        else:
+            ok = not fcalls and isinstance(val, ast.Constant) and val.value is None
+            run.check(ok, "C08.NONE", fn.qual, "no relevant samples -> None, function not called",
+                      "without relevant samples the resampling function is still called or the emitted value "
+                      "is not None", **where)
+    if not seen_rel:
+        raise AnalysisError(f"{fn.qual}: relevant-sample slice not found on any path")
 
 
 def check_filter(run: Run, prog: Program) -> None:
@@ -128,39 +205,31 @@ def check_filter(run: Run, prog: Program) -> None:
         raise AnalysisError(f"C08.FILTER: expected one add_sample call site, found {n}")
     rs = prog.func(f"{MOD}:_StreamingHelper._receive_samples")
     run.analysed(rs.qual)
-    cfg = CFG(rs.node, rs.file)
-    adds = nodes_with_call(cfg, lambda c: method_call(c, "self._helper", "add_sample"))
-    loops = [h for h in cfg.nodes if h.kind == "for" and u(h.ast.iter) == "self._source"]  # type: ignore[union-attr]
-    if len(loops) != 1:
+    node = inline_helpers(prog, rs)
+    loops = [s for s in body_walk(node) if isinstance(s, (ast.AsyncFor, ast.For)) and u(s.iter) == "self._source"]
+    if len(loops) != 1 or not isinstance(loops[0].target, ast.Name):
         raise AnalysisError(f"{rs.qual}: receive loop not found")
-    sv = u(loops[0].ast.target)  # type: ignore[union-attr]
-    want = ("and", frozenset({("isnot", frozenset({f"{sv}.value", "None"})),
-                              ("not", ("truthy", f"{sv}.value.isnan()"))}))
-    guards = [t.id for t in cfg.nodes if t.kind == "test" and t.ast is not None and canon(t.ast) == want]
-    ok = bool(guards) and bool(adds)
-    wit = None
-    if ok:
-        wit = cfg.path(cfg.entry, adds, avoid=guards)
-        t_true = [m for m, lab in cfg.succ[guards[0]] if lab == "true"]
-        ok = wit is None and t_true == adds[:1]
-        c = find_calls(cfg.nodes[adds[0]].ast, lambda c: method_call(c, "self._helper", "add_sample"))[0]  # type: ignore[arg-type]
-        ok = ok and [u(a) for a in c.args] == [sv]
-    run.check(ok, "C08.FILTER", rs.qual, "if sample.value is not None and not sample.value.isnan(): add_sample(sample)",
-              "None/NaN samples can reach the buffer (or valid ones are dropped): the filter in the "
-              "receive loop is not exactly `value is not None and not value.isnan()`", node=rs.node,
-              file=rs.file, path=cfg.describe_path(wit))
+    sv = loops[0].target.id
+    for p, _st in sym_block(loops[0].body):
+        adds = p.calls(lambda c: method_call(c, "self._helper", "add_sample"))
+        is_none = p.outcome(("is", frozenset({f"{sv}.value", "None"})))
+        is_nan = p.outcome(("truthy", f"{sv}.value.isnan()"))
+        valid = is_none is False and is_nan is False
+        invalid = is_none is True or is_nan is True
+        ok = (valid and len(adds) == 1 and [u(a) for a in adds[0].node.args] == [sv]) \
+            or (invalid and not valid and not adds)  # type: ignore[attr-defined]
+        run.check(ok, "C08.FILTER", rs.qual, "if sample.value is not None and not sample.value.isnan(): add_sample(sample)",
+                  "None/NaN samples can reach the buffer (or valid ones are dropped): the filter in the "
+                  "receive loop is not exactly `value is not None and not value.isnan()`", node=rs.node,
+                  file=rs.file, path=p.describe())
     ad = prog.func(f"{HELPER}.add_sample")
     run.analysed(ad.qual)
-    cfg = CFG(ad.node, ad.file)
-    apps = nodes_with_call(cfg, lambda c: method_call(c, "self._buffer", "append"))
-    wit = cfg.path(cfg.entry, [cfg.exit], avoid=apps)
-    ok = len(apps) == 1 and wit is None
-    if ok:
-        c = find_calls(cfg.nodes[apps[0]].ast, lambda c: method_call(c, "self._buffer", "append"))[0]  # type: ignore[arg-type]
-        ok = [u(a) for a in c.args] == [ad.params[1]]
-    run.check(ok, "C08.FILTER", ad.qual, "self._buffer.append(sample) on every path",
-              "add_sample can return without storing the valid sample it was given (e.g. samples with "
-              "equal timestamps silently discarded)", node=ad.node, file=ad.file, path=cfg.describe_path(wit))
+    for p in _paths(prog, ad):
+        apps = p.calls(lambda c: method_call(c, BUF, "append"))
+        ok = p.exit in ("return", "fall") and len(apps) == 1 and [u(a) for a in apps[0].node.args] == [ad.params[1]]  # type: ignore[attr-defined]
+        run.check(ok, "C08.FILTER", ad.qual, "self._buffer.append(sample) on every path",
+                  "add_sample can return without storing the valid sample it was given (e.g. samples with "
+                  "equal timestamps silently discarded)", node=ad.node, file=ad.file, path=p.describe())
 
 
 def check_buf(run: Run, prog: Program) -> None:
@@ -186,7 +255,9 @@ def check_buf(run: Run, prog: Program) -> None:
         if ok and m.name != "__init__":
             ok = [u(a) for a in v.args] == ["self._buffer"]
         elif ok:
-            ok = not v.args and {k.arg: u(k.value) for k in v.keywords} == {"maxlen": "config.initial_buffer_len"}
+            kws = {k.arg: u(k.value) for k in v.keywords}
+            ok = not v.args and set(kws) == {"maxlen"} and kws["maxlen"] in (
+                f"{m.params[2] if len(m.params) > 2 else 'config'}.initial_buffer_len", f"{CONF}.initial_buffer_len")
         run.check(ok, "C08.BUF", m.qual, s,
                   "the buffer is not a bounded deque (re-created from its old content on resize)",
                   node=s, file=m.file)
@@ -195,42 +266,34 @@ def check_buf(run: Run, prog: Program) -> None:
 def check_est(run: Run, prog: Program) -> None:
     fn = prog.func(f"{HELPER}._update_source_sample_period")
     run.analysed(fn.qual)
-    cfg = CFG(fn.node, fn.file)
     now = fn.params[1]
-    sets = [n.id for n in cfg.nodes if n.kind == "stmt" and any(
-        u(w).endswith(".sampling_period") for w in node_writes(cfg, n.id))]
-    if not sets:
-        raise AnalysisError(f"{fn.qual}: assignment of the input sampling period not found")
-    guards = []
-    for t in cfg.nodes:
-        if t.kind != "test" or t.ast is None:
-            continue
-        c = canon_total(t.ast)
-        disj = c[1] if isinstance(c, tuple) and c[0] == "or" else frozenset({c})
-        if ("<=", now, "props.sampling_start") in disj or ("<=", now, "self._source_properties.sampling_start") in disj:
-            t_true = cfg.reachable([m for m, lab in cfg.succ[t.id] if lab == "true"])
-            if not any(s in t_true for s in sets):
-                guards.append(t.id)
-    wit = cfg.path(cfg.entry, sets, avoid=guards)
-    run.check(bool(guards) and wit is None, "C08.EST", fn.qual, f"{now} <= props.sampling_start -> no estimate",
-              "the input period is estimated without first excluding `now <= sampling_start` (samples "
-              "that arrive before a tick but are stamped after it): the estimate can be zero or "
-              "negative and then corrupts the relevance window and the buffer length",
-              node=fn.node, file=fn.file, path=cfg.describe_path(wit))
     te = TermEval()
-    s = cfg.nodes[sets[0]].ast
-    ok = isinstance(s, ast.Assign) and isinstance(s.value, ast.Call) and u(s.value.func) == "timedelta"
-    if ok:
-        kw = {k.arg: k.value for k in s.value.keywords}
-        delta = None
-        for d in body_walk(fn.node):
-            if isinstance(d, ast.Assign) and u(d.targets[0]) == "samples_time_delta":
-                delta = te.ev(d.value)
-        ok = "seconds" in kw and delta == Poly.atom(now) - Poly.atom("props.sampling_start") and \
-            u(kw["seconds"]).replace(" ", "") == "samples_time_delta.total_seconds()/props.received_samples"
-    run.check(ok, "C08.EST", fn.qual, "sampling_period = (now - sampling_start) / received_samples",
-              "the input period estimate is not elapsed time divided by the number of received samples",
-              node=fn.node, file=fn.file)
+    n = 0
+    for p in _paths(prog, fn):
+        writes = [e for e in p.effects if e.kind == "write" and u(e.node.elts[0]) == SP]  # type: ignore[attr-defined]
+        if not writes:
+            continue
+        n += 1
+        after = p.outcome(("<=", now, START)) is False or p.outcome(("<", START, now)) is True
+        run.check(after, "C08.EST", fn.qual, f"{now} <= props.sampling_start -> no estimate",
+                  "the input period is estimated without first excluding `now <= sampling_start` (samples "
+                  "that arrive before a tick but are stamped after it): the estimate can be zero or "
+                  "negative and then corrupts the relevance window and the buffer length",
+                  node=fn.node, file=fn.file, path=p.describe())
+        v = writes[0].node.elts[1]  # type: ignore[attr-defined]
+        ok = len(writes) == 1 and isinstance(v, ast.Call) and u(v.func) == "timedelta" and not v.args \
+            and [k.arg for k in v.keywords] == ["seconds"]
+        if ok:
+            q = v.keywords[0].value
+            ok = isinstance(q, ast.BinOp) and isinstance(q.op, ast.Div) and u(q.right) == RECV \
+                and isinstance(q.left, ast.Call) and isinstance(q.left.func, ast.Attribute) \
+                and q.left.func.attr == "total_seconds" and not q.left.args \
+                and te.ev(q.left.func.value) == Poly.atom(now) - Poly.atom(START)
+        run.check(ok, "C08.EST", fn.qual, "sampling_period = (now - sampling_start) / received_samples",
+                  "the input period estimate is not elapsed time divided by the number of received samples",
+                  node=fn.node, file=fn.file, path=p.describe())
+    if not n:
+        raise AnalysisError(f"{fn.qual}: assignment of the input sampling period not found")
 
 
 CONTROLS = [
